@@ -455,3 +455,95 @@ func b2i(b bool) int {
 	}
 	return 0
 }
+
+func init() { runners["tableconc"] = runTableConc }
+
+// runTableConc drives the running table loop (real timers, revalidation every few milliseconds against a transport
+// whose peers answer or not at random) from several goroutines at once: found / inbound additions and lookup
+// feedback (explicit deletion through the RPC path is left out: it mutates the revalidation lists under the table mutex
+// while the loop reads them without it - a data race the step model has no notion of, see DESIGN). The loop serialises them in an order the harness does not know, so only the structural invariant is
+// judged, on snapshots taken while the mix runs and after it has drained. A panic of the table would kill the harness;
+// the check reports that as a violation.
+func runTableConc(o *Out, r *rand.Rand, thorough bool, _ []string) {
+	runs := 8
+	if thorough {
+		runs = 100
+	}
+	for k := 0; k < runs; k++ {
+		selfKey := keyFromSeed(r)
+		self := signRec(selfKey, net.IP{127, 0, 0, 1}, 30303, 1)
+		tr := &tabTransport{self: self, answer: map[enode.ID]pingAnswer{}, pinged: make(chan enode.ID, 100000)}
+		db, _ := enode.OpenDB("")
+		tab, err := portalwire.VerifNewTableForLoop(tr, db, mclock.System{}, 4*time.Millisecond, r.Int63())
+		if err != nil {
+			panic(err)
+		}
+		subnets := []string{"34.1.7", "34.1.8", "91.200.3"}
+		ts := &tabState{tab: tab, idIdx: map[enode.ID]int{}, subnets: subnets}
+		o.Case(fmt.Sprintf("tabinit self=%x subnets=%s", self.ID().Bytes(), strings.Join(subnets, ",")), "ok")
+		nIds := 60
+		keys := make([]*ecdsa.PrivateKey, nIds)
+		ids := make([]enode.ID, nIds)
+		for i := range keys {
+			keys[i] = keyFromSeed(r)
+			ids[i] = enode.PubkeyToIDV4(&keys[i].PublicKey)
+			ts.idIdx[ids[i]] = i
+			o.Case(fmt.Sprintf("id i%d %x bucket=%d", i, ids[i].Bytes(), tab.VerifBucketIndex(ids[i])), "ok")
+			tr.answer[ids[i]] = pingAnswer{respond: r.Intn(3) != 0, seq: uint64(1 + r.Intn(3))}
+		}
+		ts.idIdx[self.ID()] = nIds
+		o.Case(fmt.Sprintf("id i%d %x bucket=%d", nIds, self.ID().Bytes(), 0), "ok")
+		// record variants, prepared up front (signing is not what is being raced)
+		var recs []*enode.Node
+		for i := 0; i < 400; i++ {
+			idIdx := r.Intn(nIds)
+			var ip net.IP
+			switch c := r.Intn(10); {
+			case c < 7:
+				ip = net.ParseIP(fmt.Sprintf("%s.%d", subnets[r.Intn(3)], 1+r.Intn(250))).To4()
+			case c < 9:
+				ip = net.IP{192, 168, 0, byte(1 + r.Intn(200))}
+			default:
+				ip = net.IP{127, 0, 0, byte(1 + r.Intn(200))}
+			}
+			recs = append(recs, signRec(keys[idIdx], ip, 30000+r.Intn(3), uint64(1+r.Intn(3))))
+		}
+		tab.VerifStartLoop()
+		var wg sync.WaitGroup
+		seeds := []int64{r.Int63(), r.Int63(), r.Int63(), r.Int63()}
+		for g := 0; g < 4; g++ {
+			wg.Add(1)
+			go func(seed int64) {
+				defer wg.Done()
+				rr := rand.New(rand.NewSource(seed))
+				for i := 0; i < 250; i++ {
+					n := recs[rr.Intn(len(recs))]
+					switch rr.Intn(10) {
+					case 0, 1, 2, 3:
+						tab.VerifAddFoundNode(n, rr.Intn(2) == 0)
+					case 4, 5:
+						tab.VerifAddInboundNode(n)
+					default:
+						var found []*enode.Node
+						for j := 0; j < rr.Intn(3); j++ {
+							found = append(found, recs[rr.Intn(len(recs))])
+						}
+						tab.VerifTrackRequestAsync(n, len(found) > 0, found)
+					}
+				}
+			}(seeds[g])
+		}
+		// snapshots while the mix runs
+		for s := 0; s < 5; s++ {
+			time.Sleep(3 * time.Millisecond)
+			snap, _ := ts.snapshot()
+			o.Case("tsnap phase=running", snap)
+		}
+		wg.Wait()
+		time.Sleep(20 * time.Millisecond)
+		snap, _ := ts.snapshot()
+		o.Case("tsnap phase=drained", snap)
+		tab.VerifClose()
+		db.Close()
+	}
+}
